@@ -213,6 +213,24 @@ theorem adapter_reset (E : Env S A O R K) (ad : GymAdapter S K) (seed : Option K
     (ad.reset E seed).1.state = (E.reset (sub (seed.getD ad.key) 1)).1 ∧
     (ad.reset E seed).2 = (E.reset (sub (seed.getD ad.key) 1)).2 := ⟨rfl, rfl⟩
 
+/-- **The Gymnax adapter**: `done` is raised exactly when the transition taken is terminal or truncated (a
+    time limit anywhere in the stack counts), and then the returned state is a freshly drawn initial state —
+    whatever the environment / wrapper stack. -/
+theorem gymnax_done_iff (E : Env S A O R K) (s : S) (a : A) (k : K) :
+    let out := gymnaxStepEnv E s a k
+    let next := E.transition s a (sub k 0)
+    (out.2.2.2 = (E.terminal next (sub k 2) || E.truncate next)) ∧
+    (out.2.2.2 = true → out.2.1 = E.initial (sub k 3)) ∧
+    (out.2.2.2 = false → out.2.1 = next) ∧
+    out.2.2.1 = E.reward s a next (sub k 1) := by
+  simp only [gymnaxStepEnv, Env.step]
+  refine ⟨trivial, ?_, ?_, trivial⟩ <;> intro h <;> simp_all
+
+/-- in particular through a `TimeLimit n` over any inner environment: the `n`-th step of an episode raises `done` -/
+theorem gymnax_done_at_time_limit (E : Env S A O R K) (n : Nat) (s : S) (c : Nat) (a : A) (k : K)
+    (hc : n ≤ c + 1) : (gymnaxStepEnv (timeLimit n E) (s, c) a k).2.2.2 = true := by
+  simp [gymnaxStepEnv, Env.step, timeLimit, hc]
+
 end adapters
 
 /-! ### rescale_box and clip -/
